@@ -29,6 +29,7 @@ package main
 
 import (
 	"bytes"
+	"flag"
 	"fmt"
 	"go/ast"
 	"go/parser"
@@ -114,6 +115,12 @@ func pvKind(fset *token.FileSet, vs *ast.ValueSpec, i int) string {
 		}
 	}
 	if ce, ok := init.(*ast.CallExpr); ok {
+		// a conversion of a string literal: []byte("&amp;")
+		if at, ok := ce.Fun.(*ast.ArrayType); ok && at.Len == nil && len(ce.Args) == 1 {
+			if _, ok := ce.Args[0].(*ast.BasicLit); ok {
+				return "bytes-literal"
+			}
+		}
 		if id, ok := ce.Fun.(*ast.Ident); ok && id.Name == "make" && len(ce.Args) > 0 {
 			switch ce.Args[0].(type) {
 			case *ast.MapType:
@@ -561,20 +568,25 @@ func (g *gen) pkgVars() {
 	sort.SliceStable(methods, less(methods))
 	sort.SliceStable(shared, less(shared))
 
-	// ---- emission ----
-	g.p("(* package-level variables of the non-test sources: (package directory, name, kind of initialiser) *)\n")
-	g.p("Definition pkg_vars : list (bstr * bstr * bstr) := [\n")
+	// ---- emission: into Generated/PkgState.v, a file of its own next to -out, so that a change of these lists
+	// rebuilds C09's closure only and not every model that imports Generated/Tables.v ----
+	var pb strings.Builder
+	pp := func(format string, args ...interface{}) { fmt.Fprintf(&pb, format, args...) }
+	pp("(* GENERATED by /verif/go/cmd/tablegen (pkgvars.go) from the Go sources of robfig/soy.\n   Do not edit: regenerated on every check run. *)\n")
+	pp("From Soy Require Import Model.Bytes.\nOpen Scope N_scope.\n\n")
+	pp("(* package-level variables of the non-test sources: (package directory, name, kind of initialiser) *)\n")
+	pp("Definition pkg_vars : list (bstr * bstr * bstr) := [\n")
 	for i, v := range vars {
 		sep := ";"
 		if i == len(vars)-1 {
 			sep = ""
 		}
-		g.p("  (%s, %s, %s)%s   (* %s *)\n", coqBytes(v.Dir), coqBytes(v.Name), coqBytes(v.Kind), sep, pvComment(v.Dir+"."+v.Name+" : "+v.Kind))
+		pp("  (%s, %s, %s)%s   (* %s *)\n", coqBytes(v.Dir), coqBytes(v.Name), coqBytes(v.Kind), sep, pvComment(v.Dir+"."+v.Name+" : "+v.Kind))
 	}
-	g.p("].\n")
+	pp("].\n")
 	emit := func(name, doc string, l []pvSite, key func(pvSite) string) {
-		g.p("(* %s *)\n", doc)
-		g.p("Definition %s : list (bstr * bstr * bstr * bstr) := [\n", name)
+		pp("(* %s *)\n", doc)
+		pp("Definition %s : list (bstr * bstr * bstr * bstr) := [\n", name)
 		seen := map[string]bool{}
 		var rows []pvSite
 		for _, s := range l {
@@ -589,18 +601,28 @@ func (g *gen) pkgVars() {
 			if i == len(rows)-1 {
 				sep = ""
 			}
-			g.p("  (%s, %s, %s, %s)%s   (* %s *)\n", coqBytes(s.Dir), coqBytes(s.Var), coqBytes(s.Func), coqBytes(s.Kind), sep, pvComment(s.Dir+"  "+s.Var+"  in "+s.Func+": "+s.Kind))
+			pp("  (%s, %s, %s, %s)%s   (* %s *)\n", coqBytes(s.Dir), coqBytes(s.Var), coqBytes(s.Func), coqBytes(s.Kind), sep, pvComment(s.Dir+"  "+s.Var+"  in "+s.Func+": "+s.Kind))
 		}
-		g.p("].\n")
+		pp("].\n")
 	}
 	k4 := func(s pvSite) string { return s.Dir + "\x00" + s.Var + "\x00" + s.Func + "\x00" + s.Kind }
 	emit("pkg_var_writes", "writes to package-level variables in function bodies: (package of the variable, variable, package:function, kind)", sites, k4)
 	emit("pkg_var_methods", "methods called on package-level variables: (package of the variable, variable, package:function, method)", methods, k4)
 	emit("shared_type_writes", "writes through syntax-tree / registry / bundle typed values in soyhtml, soyjs, template: (package, written expression, package:function, kind)", shared, k4)
 
+	if fl := flag.Lookup("out"); fl != nil && fl.Value.String() != "" {
+		outPath := filepath.Join(filepath.Dir(fl.Value.String()), "PkgState.v")
+		old, _ := os.ReadFile(outPath)
+		if string(old) != pb.String() {
+			if err := os.WriteFile(outPath, []byte(pb.String()), 0o644); err != nil {
+				g.fail("pkgvars: cannot write %s", outPath)
+			}
+		}
+	}
+	g.p("(* the package-level state of the sources is in Generated/PkgState.v *)\n")
+	g.p("Definition pkg_state_generated : bool := true.\n")
 	g.js["pkg_vars"] = vars
 	g.js["pkg_var_writes"] = sites
 	g.js["pkg_var_methods"] = methods
 	g.js["shared_type_writes"] = shared
-	_ = fmt.Sprint
 }
